@@ -220,3 +220,31 @@ func everyPath(f *cfgx.Fn, site ssa.Instruction, pred func(g map[string]bool) bo
 func cfgxCallee(ci ssa.CallInstruction) string { return cfgx.CalleeName(ci) }
 func eqs(s string) func(string) bool         { return cfgx.Equals(s) }
 func exprOf(v ssa.Value) string              { return cfgx.Expr(v) }
+
+
+// helperOnlyCalledFrom: fn is an unexported function/method of the repository all of whose callers (in the
+// call graph, synthetic wrappers skipped) are in the allowed set — a helper extracted from a reviewed writer
+// writes on that writer's behalf.
+func (c *Ctx) helperOnlyCalledFrom(fn *ssa.Function, allowed map[string]bool) bool {
+	if fn == nil || c.P.CG == nil || fn.Parent() != nil {
+		return false
+	}
+	n := fn.Name()
+	if n == "" || !(n[0] >= 'a' && n[0] <= 'z') {
+		return false
+	}
+	callers := 0
+	for _, e := range c.P.Callers(fn) {
+		if e.Caller.Func.Synthetic != "" {
+			continue
+		}
+		if _, isGo := e.Site.(*ssa.Go); isGo {
+			return false
+		}
+		callers++
+		if !allowed[core.Short(core.FuncName(e.Caller.Func))] {
+			return false
+		}
+	}
+	return callers > 0
+}
